@@ -659,7 +659,7 @@ def run_directed(case):
             "case": case}
 
 
-DIRECTED = ["A", "F", "G", "U", "I", "J", "K", "L", "R", "EE", "FF", "RR", "SS"]
+DIRECTED = ["A", "F", "G", "U", "I", "J", "K", "L", "R", "EE", "FF", "RR", "SS", "TT"]
 
 
 def _n(v):
